@@ -55,6 +55,11 @@ type Scenario struct {
 	// remote destination: 0 no MountFrom; 1 MountFrom = [source repository]; 2 MountFrom = [a repository without the
 	// blobs, source repository]; 3 MountFrom = [a repository without the blobs] (mounting fails, the node is copied)
 	Mount int `json:"mount,omitempty"`
+	// the order in which the source lists a node's predecessors: 0 as the store returns them, else a permutation drawn
+	// from (PredOrder, node) - the order is unspecified, the outcome must not depend on it
+	PredOrder int `json:"predorder,omitempty"`
+	// remote sources: the client's ReferrerListPageSize (the registry's page limit RefPage is the server's own choice)
+	RefN int `json:"refn,omitempty"`
 }
 
 var errCallback = errors.New("verif: callback error")
@@ -93,6 +98,9 @@ func RunOne(t *testing.T, sc *Scenario, tr *vh.Tracer) Result {
 		if err != nil {
 			t.Fatal(err)
 		}
+		if rr, ok := src.(*remote.Repository); ok {
+			rr.ReferrerListPageSize = sc.RefN
+		}
 		for k := 1; k <= g.N; k++ {
 			if g.Nodes[k].Kind == "foreign" {
 				continue // foreign layers are not in the source either
@@ -118,7 +126,7 @@ func RunOne(t *testing.T, sc *Scenario, tr *vh.Tracer) Result {
 		s := &vh.Sched{}
 		e := &env{g: g, s: s, tr: tr, faults: append([]Fault(nil), sc.Faults...)}
 		cberr := append([]Fault(nil), sc.CbErr...)
-		sw0 := &srcW{e: e, und: src}
+		sw0 := &srcW{e: e, und: src, order: sc.PredOrder}
 		var sw oras.ReadOnlyGraphTarget = sw0
 		if rl, ok := src.(registry.ReferrerLister); ok {
 			sw = &srcRefW{srcW: sw0, rl: rl} // the source lists referrers itself (remote repository)
@@ -274,10 +282,10 @@ func RunOne(t *testing.T, sc *Scenario, tr *vh.Tracer) Result {
 			}
 		} else {
 			e.mu.Lock()
-			fired := e.fired
+			fired, soft := e.fired, e.soft
 			e.mu.Unlock()
 			res.Err = callErr
-			tr.Emit(map[string]any{"e": "ret", "err": callErr != nil, "root": rootN, "fired": fired + precancel, "cancelled": cancelled,
+			tr.Emit(map[string]any{"e": "ret", "err": callErr != nil, "root": rootN, "fired": fired + precancel, "soft": soft, "cancelled": cancelled,
 				"msg": errMsg(callErr), "cberr": errors.Is(callErr, errCallback)})
 		}
 		// retry without faults on the same destination when the call failed
